@@ -1,3 +1,949 @@
 (* Link/LayerProofs.v — address filtering and secondary-station behaviour of the link layer. *)
 From Dnp3V Require Import Link.Layer Link.CrcProofs Link.ParserProofs.
 Open Scope N_scope.
+
+(* ---------- process_header = address/direction filter, then dispatch on the function --------- *)
+
+(* the destination classes the endpoint listens to: None = not for us, Some None = unicast,
+   Some (Some m) = broadcast *)
+Definition dest_class (cfg : lcfg) (d : any_address) : option (option bcast_mode) :=
+  match d with
+  | AEndpoint x => if x =? l_addr cfg then Some None else None
+  | ASelf => if l_self cfg then Some None else None
+  | AReserved _ => None
+  | ABroadcast m => match l_type cfg with Master => None | Outstation => Some (Some m) end
+  end.
+
+(* Some (source, broadcast) when the frame passes the direction, source, destination and
+   "broadcast carries user data only" checks *)
+Definition link_filter (cfg : lcfg) (h : header) : option (N * option bcast_mode) :=
+  if bool_eqb (c_master (h_control h)) (dir_bit (l_type cfg)) then None
+  else
+    match h_src h with
+    | AEndpoint source =>
+        match dest_class cfg (h_dest h) with
+        | None => None
+        | Some broadcast =>
+            if (match broadcast with Some _ => negb (is_user_data (c_func (h_control h))) | None => false end)
+            then None else Some (source, broadcast)
+        end
+    | _ => None
+    end.
+
+Definition ack_unless_broadcast (source : N) (broadcast : option bcast_mode) : option reply :=
+  match broadcast with
+  | None => Some {| rp_addr := source; rp_func := SecAck |}
+  | Some _ => None
+  end.
+
+Definition dispatch (ss : sec_state) (c : control) (source : N) (broadcast : option bcast_mode)
+  : sec_state * option frame_info * option reply :=
+  match c_func c with
+  | PriUnconfirmedUserData =>
+      if c_fcv c then (ss, None, None) else (ss, Some (mk_info source broadcast FData), None)
+  | PriResetLinkStates =>
+      if c_fcv c then (ss, None, None)
+      else (ResetS true, None, Some {| rp_addr := source; rp_func := SecAck |})
+  | PriConfirmedUserData =>
+      if negb (c_fcv c) then (ss, None, None)
+      else
+        match ss with
+        | NotReset => (ss, None, None)
+        | ResetS expected =>
+            if bool_eqb (c_fcb c) expected
+            then (ResetS (negb expected), Some (mk_info source broadcast FData),
+                  ack_unless_broadcast source broadcast)
+            else (ss, None, ack_unless_broadcast source broadcast)
+        end
+  | PriRequestLinkStatus =>
+      if c_fcv c then (ss, None, None)
+      else (ss, Some (mk_info source broadcast FLinkStatusRequest),
+            Some {| rp_addr := source; rp_func := SecLinkStatus |})
+  | SecLinkStatus => (ss, Some (mk_info source broadcast FLinkStatusResponse), None)
+  | _ => (ss, None, None)
+  end.
+
+Lemma process_header_eq cfg ss h :
+  process_header cfg ss h =
+  match link_filter cfg h with
+  | None => (ss, None, None)
+  | Some (source, broadcast) => dispatch ss (h_control h) source broadcast
+  end.
+Proof.
+  unfold process_header, link_filter, dispatch, dest_class, ack_unless_broadcast.
+  destruct (bool_eqb (c_master (h_control h)) (dir_bit (l_type cfg))); [reflexivity|].
+  destruct (h_src h) as [x|s|m|]; try reflexivity.
+  destruct (h_dest h) as [x|x|m|]; try reflexivity.
+  - destruct (x =? l_addr cfg); reflexivity.
+  - destruct (l_type cfg); [reflexivity|].
+    destruct (negb (is_user_data (c_func (h_control h)))); reflexivity.
+  - destruct (l_self cfg); reflexivity.
+Qed.
+
+Lemma bool_eqb_false a b : bool_eqb a b = false <-> a = negb b.
+Proof. destruct a, b; cbn; split; congruence. Qed.
+
+Lemma bool_eqb_true a b : bool_eqb a b = true <-> a = b.
+Proof. destruct a, b; cbn; split; congruence. Qed.
+
+(* what "addressed to this endpoint" means, as a proposition *)
+Definition addressed (cfg : lcfg) (h : header) (broadcast : option bcast_mode) : Prop :=
+  (broadcast = None /\
+   (h_dest h = AEndpoint (l_addr cfg) \/ (h_dest h = ASelf /\ l_self cfg = true))) \/
+  (exists m, broadcast = Some m /\ h_dest h = ABroadcast m /\ l_type cfg = Outstation /\
+             is_user_data (c_func (h_control h)) = true).
+
+Lemma link_filter_spec cfg h source broadcast :
+  link_filter cfg h = Some (source, broadcast) <->
+  c_master (h_control h) = negb (dir_bit (l_type cfg)) /\
+  h_src h = AEndpoint source /\ addressed cfg h broadcast.
+Proof.
+  unfold link_filter, addressed, dest_class. split.
+  - destruct (bool_eqb (c_master (h_control h)) (dir_bit (l_type cfg))) eqn:Edir; [discriminate|].
+    apply (proj1 (bool_eqb_false _ _)) in Edir. intro H.
+    destruct (h_src h) as [x|s|m|]; try discriminate.
+    destruct (h_dest h) as [x|x|m|]; try discriminate.
+    + destruct (x =? l_addr cfg) eqn:Ex; [|discriminate]. apply N.eqb_eq in Ex. subst x.
+      inversion H; subst. split; [assumption|]. split; [reflexivity|]. left. auto.
+    + destruct (l_type cfg) eqn:Et; [discriminate|].
+      destruct (is_user_data (c_func (h_control h))) eqn:Eu; [|discriminate].
+      cbn [negb] in H. inversion H; subst. split; [assumption|]. split; [reflexivity|].
+      right. exists m. auto.
+    + destruct (l_self cfg) eqn:Es; [|discriminate]. inversion H; subst.
+      split; [assumption|]. split; [reflexivity|]. left. auto.
+  - intros (Hdir & Hsrc & Ha). apply (proj2 (bool_eqb_false _ _)) in Hdir. rewrite Hdir, Hsrc.
+    destruct Ha as [(-> & [Hd|(Hd & Hs)])|(m & -> & Hd & Ht & Hu)]; rewrite Hd.
+    + rewrite N.eqb_refl. reflexivity.
+    + rewrite Hs. reflexivity.
+    + rewrite Ht, Hu. reflexivity.
+Qed.
+
+(* what dispatch can return *)
+Lemma dispatch_sources ss c source broadcast ss' info rp :
+  dispatch ss c source broadcast = (ss', info, rp) ->
+  (forall i, info = Some i -> fi_source i = source /\ fi_broadcast i = broadcast) /\
+  (forall r, rp = Some r -> rp_addr r = source /\ (rp_func r = SecAck \/ rp_func r = SecLinkStatus)).
+Proof.
+  unfold dispatch, ack_unless_broadcast. intro H.
+  destruct (c_func c); destruct (c_fcv c); cbn [negb] in H;
+    try (destruct ss as [|e]; [|destruct (bool_eqb (c_fcb c) e)]);
+    try (destruct broadcast as [m|]);
+    inversion H; subst; split; intros x Hx; try discriminate; inversion Hx; subst; cbn; auto.
+Qed.
+
+Lemma dispatch_broadcast_no_reply ss c source m :
+  is_user_data (c_func c) = true -> snd (dispatch ss c source (Some m)) = None.
+Proof.
+  unfold dispatch, ack_unless_broadcast. intro Hu.
+  destruct (c_func c); try discriminate; destruct (c_fcv c); cbn [negb]; try reflexivity.
+  destruct ss as [|e]; [reflexivity|]. destruct (bool_eqb (c_fcb c) e); reflexivity.
+Qed.
+
+Lemma dispatch_ignored_or ss c source broadcast :
+  forall ss' info rp, dispatch ss c source broadcast = (ss', info, rp) ->
+  ss' <> ss -> c_func c = PriResetLinkStates /\ c_fcv c = false /\ ss' = ResetS true \/
+               (exists e, c_func c = PriConfirmedUserData /\ c_fcv c = true /\ ss = ResetS e /\
+                          c_fcb c = e /\ ss' = ResetS (negb e) /\ info <> None).
+Proof.
+  unfold dispatch. intros ss' info rp H Hne.
+  destruct (c_func c) eqn:Efn; destruct (c_fcv c) eqn:Efcv; cbn [negb] in H;
+    try (inversion H; subst; congruence).
+  - left. inversion H; subst. auto.
+  - right. destruct ss as [|e]; [inversion H; subst; congruence|].
+    destruct (bool_eqb (c_fcb c) e) eqn:Eb; [|inversion H; subst; congruence].
+    apply (proj1 (bool_eqb_true _ _)) in Eb. inversion H; subst. exists (c_fcb c). repeat split; congruence.
+Qed.
+
+(* ---------- 1. the endpoint acts only on frames addressed to it ------------------------------- *)
+
+Theorem acted_implies_addressed cfg ss h ss' info rp :
+  process_header cfg ss h = (ss', info, rp) ->
+  (info <> None \/ rp <> None \/ ss' <> ss) ->
+  c_master (h_control h) <> dir_bit (l_type cfg) /\
+  exists s, h_src h = AEndpoint s /\
+    (h_dest h = AEndpoint (l_addr cfg) \/ (h_dest h = ASelf /\ l_self cfg = true) \/
+     (exists m, h_dest h = ABroadcast m /\ l_type cfg = Outstation /\
+                is_user_data (c_func (h_control h)) = true)) /\
+    (forall i, info = Some i -> fi_source i = s) /\
+    (forall r, rp = Some r -> rp_addr r = s).
+Proof.
+  rewrite process_header_eq. intros H Hact.
+  destruct (link_filter cfg h) as [[s b]|] eqn:Ef.
+  - apply link_filter_spec in Ef. destruct Ef as (Hdir & Hsrc & Ha).
+    split; [rewrite Hdir; destruct (dir_bit (l_type cfg)); discriminate|].
+    exists s. split; [exact Hsrc|]. split.
+    + destruct Ha as [(_ & [Hd|Hd])|(m & _ & Hd)]; [left; exact Hd|right; left; exact Hd|].
+      right; right. exists m. exact Hd.
+    + destruct (dispatch_sources _ _ _ _ _ _ _ H) as [Hi Hr]. split.
+      * intros i Ei. apply (Hi i Ei).
+      * intros r Er. apply (Hr r Er).
+  - inversion H; subst. destruct Hact as [Hx|[Hx|Hx]]; congruence.
+Qed.
+
+(* the converse direction for the filter: a frame that fails it leaves no trace at all *)
+Theorem not_addressed_ignored cfg ss h :
+  link_filter cfg h = None -> process_header cfg ss h = (ss, None, None).
+Proof. intro H. rewrite process_header_eq, H. reflexivity. Qed.
+
+Corollary same_direction_ignored cfg ss h :
+  c_master (h_control h) = dir_bit (l_type cfg) -> process_header cfg ss h = (ss, None, None).
+Proof.
+  intro H. apply not_addressed_ignored. unfold link_filter.
+  apply (proj2 (bool_eqb_true _ _)) in H. rewrite H. reflexivity.
+Qed.
+
+Corollary bad_source_ignored cfg ss h :
+  (forall s, h_src h <> AEndpoint s) -> process_header cfg ss h = (ss, None, None).
+Proof.
+  intro H. apply not_addressed_ignored. unfold link_filter.
+  destruct (bool_eqb _ _); [reflexivity|]. destruct (h_src h) as [x|s|m|]; try reflexivity.
+  exfalso. apply (H s). reflexivity.
+Qed.
+
+Corollary other_destination_ignored cfg ss h x :
+  h_dest h = AEndpoint x -> x <> l_addr cfg -> process_header cfg ss h = (ss, None, None).
+Proof.
+  intros Hd Hx. apply not_addressed_ignored. unfold link_filter, dest_class. rewrite Hd.
+  apply N.eqb_neq in Hx. rewrite Hx. destruct (bool_eqb _ _); [reflexivity|]. destruct (h_src h); reflexivity.
+Qed.
+
+Corollary reserved_destination_ignored cfg ss h x :
+  h_dest h = AReserved x -> process_header cfg ss h = (ss, None, None).
+Proof.
+  intros Hd. apply not_addressed_ignored. unfold link_filter, dest_class. rewrite Hd.
+  destruct (bool_eqb _ _); [reflexivity|]. destruct (h_src h); reflexivity.
+Qed.
+
+Corollary self_address_disabled_ignored cfg ss h :
+  h_dest h = ASelf -> l_self cfg = false -> process_header cfg ss h = (ss, None, None).
+Proof.
+  intros Hd Hs. apply not_addressed_ignored. unfold link_filter, dest_class. rewrite Hd, Hs.
+  destruct (bool_eqb _ _); [reflexivity|]. destruct (h_src h); reflexivity.
+Qed.
+
+(* ---------- 2. broadcasts ---------------------------------------------------------------------- *)
+
+Theorem no_reply_to_broadcast cfg ss h m :
+  h_dest h = ABroadcast m -> snd (process_header cfg ss h) = None.
+Proof.
+  intro Hd. rewrite process_header_eq.
+  destruct (link_filter cfg h) as [[s b]|] eqn:Ef; [|reflexivity].
+  apply link_filter_spec in Ef. destruct Ef as (_ & _ & Ha).
+  destruct Ha as [(_ & [Hx|(Hx & _)])|(m' & -> & _ & _ & Hu)]; try congruence.
+  apply dispatch_broadcast_no_reply. exact Hu.
+Qed.
+
+Theorem master_ignores_broadcast cfg ss h m :
+  l_type cfg = Master -> h_dest h = ABroadcast m -> process_header cfg ss h = (ss, None, None).
+Proof.
+  intros Ht Hd. apply not_addressed_ignored. unfold link_filter, dest_class. rewrite Hd, Ht.
+  destruct (bool_eqb _ _); [reflexivity|]. destruct (h_src h); reflexivity.
+Qed.
+
+(* a broadcast that is not user data is ignored altogether (outstation as well) *)
+Theorem broadcast_non_user_data_ignored cfg ss h m :
+  h_dest h = ABroadcast m -> is_user_data (c_func (h_control h)) = false ->
+  process_header cfg ss h = (ss, None, None).
+Proof.
+  intros Hd Hu. apply not_addressed_ignored. unfold link_filter, dest_class. rewrite Hd, Hu.
+  destruct (bool_eqb _ _); [reflexivity|]. destruct (h_src h); try reflexivity.
+  destruct (l_type cfg); reflexivity.
+Qed.
+
+Definition is_tx (o : lobs) : bool := match o with LTx _ => true | _ => false end.
+
+Definition broadcast_frame (o : robs) : Prop :=
+  match o with OFrame h _ => exists m, h_dest h = ABroadcast m | _ => False end.
+
+Lemma layer_obs_frame_cons cfg ss h p rest :
+  layer_obs cfg ss (OFrame h p :: rest) =
+  (match snd (process_header cfg ss h) with Some r => [LTx (reply_bytes cfg r)] | None => [] end)
+  ++ (match snd (fst (process_header cfg ss h)) with Some i => [LInfo i p] | None => [] end)
+  ++ layer_obs cfg (fst (fst (process_header cfg ss h))) rest.
+Proof. cbn [layer_obs]. destruct (process_header cfg ss h) as [[ss' info] rp]. reflexivity. Qed.
+
+Theorem broadcast_trace_no_tx cfg : forall obs ss,
+  Forall broadcast_frame obs -> forall o, In o (layer_obs cfg ss obs) -> is_tx o = false.
+Proof.
+  induction obs as [|x obs IH]; intros ss Hall o Hin; [destruct Hin|].
+  inversion Hall as [|? ? Hx Hrest]; subst.
+  destruct x as [h p|e| |]; cbn [broadcast_frame] in Hx; try contradiction.
+  destruct Hx as [m Hm]. rewrite layer_obs_frame_cons in Hin.
+  rewrite (no_reply_to_broadcast cfg ss h m Hm) in Hin. cbn [app] in Hin.
+  apply in_app_or in Hin. destruct Hin as [Hin|Hin].
+  - destruct (snd (fst (process_header cfg ss h))); [|destruct Hin].
+    destruct Hin as [<-|[]]. reflexivity.
+  - exact (IH _ Hrest o Hin).
+Qed.
+
+(* ---------- 3. link status requests are always answered ----------------------------------------- *)
+
+Theorem link_status_answered cfg ss h s :
+  (h_dest h = AEndpoint (l_addr cfg) \/ (h_dest h = ASelf /\ l_self cfg = true)) ->
+  c_master (h_control h) = negb (dir_bit (l_type cfg)) ->
+  h_src h = AEndpoint s ->
+  c_func (h_control h) = PriRequestLinkStatus -> c_fcv (h_control h) = false ->
+  process_header cfg ss h =
+    (ss, Some (mk_info s None FLinkStatusRequest), Some {| rp_addr := s; rp_func := SecLinkStatus |}).
+Proof.
+  intros Hd Hdir Hsrc Hf Hv. rewrite process_header_eq.
+  assert (Ef : link_filter cfg h = Some (s, None)).
+  { apply link_filter_spec. split; [exact Hdir|]. split; [exact Hsrc|]. left. auto. }
+  rewrite Ef. unfold dispatch. rewrite Hf, Hv. reflexivity.
+Qed.
+
+(* ---------- the reply on the wire -------------------------------------------------------------- *)
+
+(* the fixed-size formatter (CRC over all eight bytes) and the frame formatter (CRC continued
+   from the constant CRC_OF_0564) produce the same ten bytes *)
+Lemma format_header_fixed_size_eq h : format_header_fixed_size h = format_frame h [].
+Proof.
+  unfold format_header_fixed_size, format_frame, format_header, format_body, crc_le.
+  cbn [length N.of_nat chunks chunks_fuel map concat app].
+  change (0 + c_min_header_length_value) with c_min_header_length_value.
+  rewrite (calc_crc_with_0564_eq (header_fields c_min_header_length_value h)).
+  reflexivity.
+Qed.
+
+Lemma address_from_endpoint x : x < 65520 -> address_from x = AEndpoint x.
+Proof.
+  intro Hx. unfold address_from.
+  change c_broadcast_confirm_optional with 65535. change c_broadcast_confirm_mandatory with 65534.
+  change c_broadcast_confirm_not_required with 65533. change c_self_address with 65532.
+  change c_reserved_start with 65520.
+  destruct (x =? 65535) eqn:E1; [apply N.eqb_eq in E1; lia|].
+  destruct (x =? 65534) eqn:E2; [apply N.eqb_eq in E2; lia|].
+  destruct (x =? 65533) eqn:E3; [apply N.eqb_eq in E3; lia|].
+  destruct (x =? 65532) eqn:E4; [apply N.eqb_eq in E4; lia|].
+  destruct (65520 <=? x) eqn:E5; [apply N.leb_le in E5; lia|]. reflexivity.
+Qed.
+
+Lemma address_from_endpoint_inv x y : address_from x = AEndpoint y -> x = y /\ y < 65520.
+Proof.
+  unfold address_from.
+  change c_reserved_start with 65520.
+  destruct (x =? c_broadcast_confirm_optional); [discriminate|].
+  destruct (x =? c_broadcast_confirm_mandatory); [discriminate|].
+  destruct (x =? c_broadcast_confirm_not_required); [discriminate|].
+  destruct (x =? c_self_address); [discriminate|].
+  destruct (65520 <=? x) eqn:E5; [discriminate|]. apply N.leb_gt in E5.
+  intro H. inversion H; subst. auto.
+Qed.
+
+(* the function codes the library knows *)
+Definition known_func (f : lfunc) : Prop := match f with FUnknown _ => False | _ => True end.
+
+Lemma control_from_to c : known_func (c_func c) -> control_from (control_to c) = c.
+Proof.
+  destruct c as [f m fb fv]. cbn [c_func known_func].
+  destruct f; intro H; try contradiction; destruct m, fb, fv; reflexivity.
+Qed.
+
+Lemma control_to_known_bound c : known_func (c_func c) -> control_to c < 256.
+Proof.
+  destruct c as [f m fb fv]. cbn [c_func known_func].
+  destruct f; intro H; try contradiction; destruct m, fb, fv; reflexivity.
+Qed.
+
+Definition reply_header (cfg : lcfg) (r : reply) : header :=
+  {| h_control := {| c_func := rp_func r; c_master := dir_bit (l_type cfg); c_fcb := false; c_fcv := false |};
+     h_dest := AEndpoint (rp_addr r); h_src := AEndpoint (l_addr cfg) |}.
+
+Theorem reply_bytes_parse cfg s f rest :
+  s < 65520 -> l_addr cfg < 65520 -> known_func f ->
+  parse_impl FindSync1 (reply_bytes cfg {| rp_addr := s; rp_func := f |} ++ rest) =
+  (FindSync1, rest,
+   PFrame {| h_control := {| c_func := f; c_master := dir_bit (l_type cfg); c_fcb := false; c_fcv := false |};
+             h_dest := AEndpoint s; h_src := AEndpoint (l_addr cfg) |} []).
+Proof.
+  intros Hs Ha Hf. unfold reply_bytes. cbn [rp_addr rp_func].
+  set (c := {| c_func := f; c_master := dir_bit (l_type cfg); c_fcb := false; c_fcv := false |}).
+  assert (Hh : {| h_control := c; h_dest := AEndpoint s; h_src := AEndpoint (l_addr cfg) |}
+               = mk_header (control_to c) s (l_addr cfg)).
+  { unfold mk_header. rewrite control_from_to by exact Hf.
+    rewrite !address_from_endpoint by assumption. reflexivity. }
+  rewrite Hh, format_header_fixed_size_eq.
+  apply frame_round_trip.
+  - unfold header_ok. split; [apply control_to_known_bound; exact Hf|]. lia.
+  - constructor.
+  - cbn [length]. lia.
+Qed.
+
+(* the two replies the layer ever sends *)
+Corollary ack_bytes_parse cfg s rest :
+  s < 65520 -> l_addr cfg < 65520 ->
+  parse_impl FindSync1 (reply_bytes cfg {| rp_addr := s; rp_func := SecAck |} ++ rest) =
+  (FindSync1, rest,
+   PFrame {| h_control := {| c_func := SecAck; c_master := dir_bit (l_type cfg); c_fcb := false; c_fcv := false |};
+             h_dest := AEndpoint s; h_src := AEndpoint (l_addr cfg) |} []).
+Proof. intros Hs Ha. apply reply_bytes_parse; [assumption|assumption|exact I]. Qed.
+
+Corollary link_status_bytes_parse cfg s rest :
+  s < 65520 -> l_addr cfg < 65520 ->
+  parse_impl FindSync1 (reply_bytes cfg {| rp_addr := s; rp_func := SecLinkStatus |} ++ rest) =
+  (FindSync1, rest,
+   PFrame {| h_control := {| c_func := SecLinkStatus; c_master := dir_bit (l_type cfg); c_fcb := false; c_fcv := false |};
+             h_dest := AEndpoint s; h_src := AEndpoint (l_addr cfg) |} []).
+Proof. intros Hs Ha. apply reply_bytes_parse; [assumption|assumption|exact I]. Qed.
+
+(* a reply is never acted upon by an endpoint of the same type, and when the peer (the opposite
+   type, address s) receives it, it is addressed to that peer *)
+Theorem reply_header_ignored_by_same_type cfg cfg' ss r :
+  l_type cfg' = l_type cfg -> process_header cfg' ss (reply_header cfg r) = (ss, None, None).
+Proof. intro Ht. apply same_direction_ignored. rewrite Ht. reflexivity. Qed.
+
+(* ---------- 4. confirmed user data: once per frame-count-bit toggle ------------------------------ *)
+
+Definition next_state (cfg : lcfg) (ss : sec_state) (h : header) : sec_state :=
+  fst (fst (process_header cfg ss h)).
+
+(* the secondary state after a sequence of headers *)
+Fixpoint run_sec (cfg : lcfg) (ss : sec_state) (hs : list header) : sec_state :=
+  match hs with
+  | [] => ss
+  | h :: hs' => run_sec cfg (next_state cfg ss h) hs'
+  end.
+
+Definition oframe (f : header * list N) : robs := OFrame (fst f) (snd f).
+
+Lemma layer_obs_frames_app cfg : forall fs1 ss fs2,
+  layer_obs cfg ss (map oframe (fs1 ++ fs2)) =
+  layer_obs cfg ss (map oframe fs1) ++ layer_obs cfg (run_sec cfg ss (map fst fs1)) (map oframe fs2).
+Proof.
+  induction fs1 as [|[h p] fs1 IH]; intros ss fs2; [reflexivity|].
+  cbn [map app fst run_sec]. change (oframe (h, p)) with (OFrame h p).
+  rewrite !layer_obs_frame_cons, IH. unfold next_state. rewrite !app_assoc. reflexivity.
+Qed.
+
+(* "accepted": passes the direction / source / destination filter *)
+Definition accepted (cfg : lcfg) (h : header) (s : N) (b : option bcast_mode) : Prop :=
+  link_filter cfg h = Some (s, b).
+
+(* (a) before a reset, confirmed user data is neither delivered nor acknowledged *)
+Theorem confirmed_not_reset_ignored cfg h :
+  c_func (h_control h) = PriConfirmedUserData ->
+  process_header cfg NotReset h = (NotReset, None, None).
+Proof.
+  intro Hf. rewrite process_header_eq. destruct (link_filter cfg h) as [[s b]|]; [|reflexivity].
+  unfold dispatch. rewrite Hf. destruct (negb (c_fcv (h_control h))); reflexivity.
+Qed.
+
+(* the only way out of NotReset is an accepted PriResetLinkStates with FCV = 0 *)
+Theorem not_reset_persists cfg h ss' info rp :
+  process_header cfg NotReset h = (ss', info, rp) -> ss' <> NotReset ->
+  c_func (h_control h) = PriResetLinkStates /\ c_fcv (h_control h) = false /\ ss' = ResetS true /\
+  info = None /\ exists s, accepted cfg h s None /\ rp = Some {| rp_addr := s; rp_func := SecAck |}.
+Proof.
+  rewrite process_header_eq. unfold accepted. intros H Hne.
+  destruct (link_filter cfg h) as [[s b]|] eqn:Ef; [|inversion H; subst; congruence].
+  destruct (dispatch_ignored_or _ _ _ _ _ _ _ H Hne) as [(Hf & Hv & Hs)|(e & _ & _ & Hx & _)];
+    [|discriminate].
+  unfold dispatch in H. rewrite Hf, Hv in H. inversion H; subst.
+  split; [exact Hf|]. split; [exact Hv|]. split; [reflexivity|]. split; [reflexivity|].
+  exists s. split; [|reflexivity].
+  (* a reset is never accepted by broadcast *)
+  destruct b as [m|]; [|reflexivity]. exfalso.
+  apply link_filter_spec in Ef. destruct Ef as (_ & _ & [(Hb & _)|(m' & _ & _ & _ & Hu)]); [discriminate|].
+  rewrite Hf in Hu. discriminate.
+Qed.
+
+(* (b) an accepted reset (FCV = 0) always leaves the state ResetS true and is acknowledged *)
+Theorem reset_link_states_accepted cfg ss h s b :
+  accepted cfg h s b -> c_func (h_control h) = PriResetLinkStates -> c_fcv (h_control h) = false ->
+  b = None /\
+  process_header cfg ss h = (ResetS true, None, Some {| rp_addr := s; rp_func := SecAck |}).
+Proof.
+  unfold accepted. intros Ef Hf Hv. split.
+  - destruct b as [m|]; [|reflexivity]. exfalso.
+    apply link_filter_spec in Ef. destruct Ef as (_ & _ & [(Hb & _)|(m' & _ & _ & _ & Hu)]); [discriminate|].
+    rewrite Hf in Hu. discriminate.
+  - rewrite process_header_eq, Ef. unfold dispatch. rewrite Hf, Hv. reflexivity.
+Qed.
+
+(* (c) in state ResetS e *)
+Theorem confirmed_matching_fcb cfg e h s b :
+  accepted cfg h s b -> c_func (h_control h) = PriConfirmedUserData -> c_fcv (h_control h) = true ->
+  c_fcb (h_control h) = e ->
+  process_header cfg (ResetS e) h =
+    (ResetS (negb e), Some (mk_info s b FData), ack_unless_broadcast s b).
+Proof.
+  unfold accepted. intros Ef Hf Hv Hb. rewrite process_header_eq, Ef. unfold dispatch.
+  rewrite Hf, Hv, Hb. cbn [negb]. replace (bool_eqb e e) with true by (destruct e; reflexivity).
+  reflexivity.
+Qed.
+
+Theorem confirmed_wrong_fcb cfg e h s b :
+  accepted cfg h s b -> c_func (h_control h) = PriConfirmedUserData -> c_fcv (h_control h) = true ->
+  c_fcb (h_control h) = negb e ->
+  process_header cfg (ResetS e) h = (ResetS e, None, ack_unless_broadcast s b).
+Proof.
+  unfold accepted. intros Ef Hf Hv Hb. rewrite process_header_eq, Ef. unfold dispatch.
+  rewrite Hf, Hv, Hb. cbn [negb]. replace (bool_eqb (negb e) e) with false by (destruct e; reflexivity).
+  reflexivity.
+Qed.
+
+(* a confirmed frame is delivered only in state ResetS (its FCB), FCV set; in particular right
+   after a reset (state ResetS true) exactly the frames with FCB = 1 are delivered *)
+Theorem confirmed_delivered_iff cfg ss h :
+  c_func (h_control h) = PriConfirmedUserData ->
+  (snd (fst (process_header cfg ss h)) <> None <->
+   (exists s b, accepted cfg h s b) /\ c_fcv (h_control h) = true /\ ss = ResetS (c_fcb (h_control h))).
+Proof.
+  intro Hf. rewrite process_header_eq. unfold accepted. split.
+  - destruct (link_filter cfg h) as [[s b]|] eqn:Ef; [|cbn; congruence].
+    unfold dispatch. rewrite Hf. destruct (c_fcv (h_control h)); cbn [negb]; [|cbn; congruence].
+    destruct ss as [|e]; [cbn; congruence|].
+    destruct (bool_eqb (c_fcb (h_control h)) e) eqn:Eb; [|cbn; congruence].
+    apply (proj1 (bool_eqb_true _ _)) in Eb. subst e. intros _. eauto.
+  - intros ((s & b & Ef) & Hv & ->). rewrite Ef. unfold dispatch. rewrite Hf, Hv. cbn [negb].
+    replace (bool_eqb (c_fcb (h_control h)) (c_fcb (h_control h))) with true
+      by (destruct (c_fcb (h_control h)); reflexivity).
+    cbn. discriminate.
+Qed.
+
+Corollary first_confirmed_after_reset_has_fcb_1 cfg h :
+  c_func (h_control h) = PriConfirmedUserData ->
+  snd (fst (process_header cfg (ResetS true) h)) <> None -> c_fcb (h_control h) = true.
+Proof.
+  intros Hf Hd. apply (confirmed_delivered_iff cfg (ResetS true) h Hf) in Hd.
+  destruct Hd as (_ & _ & Hs). inversion Hs. reflexivity.
+Qed.
+
+(* a retransmission (the same header again, immediately) is acknowledged again but not delivered
+   again *)
+Theorem retransmission_not_delivered cfg ss h ss' i rp :
+  c_func (h_control h) = PriConfirmedUserData ->
+  process_header cfg ss h = (ss', Some i, rp) ->
+  process_header cfg ss' h = (ss', None, rp).
+Proof.
+  intros Hf. rewrite !process_header_eq.
+  destruct (link_filter cfg h) as [[s b]|] eqn:Ef; [|discriminate].
+  unfold dispatch. rewrite Hf. destruct (c_fcv (h_control h)); cbn [negb]; [|discriminate].
+  destruct ss as [|e]; [discriminate|].
+  destruct (bool_eqb (c_fcb (h_control h)) e) eqn:Eb; [|discriminate].
+  intro H. inversion H; subst.
+  apply (proj1 (bool_eqb_true _ _)) in Eb. rewrite Eb.
+  replace (bool_eqb e (negb e)) with false by (destruct e; reflexivity). reflexivity.
+Qed.
+
+(* (d) the trace of resets and delivered confirmed frames *)
+Definition conf_event (cfg : lcfg) (ss : sec_state) (h : header) : option (option bool) :=
+  match c_func (h_control h) with
+  | PriResetLinkStates =>
+      match snd (process_header cfg ss h) with Some _ => Some None | None => None end
+  | PriConfirmedUserData =>
+      match snd (fst (process_header cfg ss h)) with
+      | Some _ => Some (Some (c_fcb (h_control h))) | None => None end
+  | _ => None
+  end.
+
+Fixpoint conf_trace (cfg : lcfg) (ss : sec_state) (hs : list header) : list (option bool) :=
+  match hs with
+  | [] => []
+  | h :: hs' =>
+      (match conf_event cfg ss h with Some ev => [ev] | None => [] end)
+      ++ conf_trace cfg (next_state cfg ss h) hs'
+  end.
+
+Fixpoint wf_from (ss : sec_state) (l : list (option bool)) : Prop :=
+  match l with
+  | [] => True
+  | None :: l' => wf_from (ResetS true) l'
+  | Some b :: l' =>
+      match ss with
+      | NotReset => False
+      | ResetS e => b = e /\ wf_from (ResetS (negb e)) l'
+      end
+  end.
+
+Lemma conf_event_step cfg ss h :
+  match conf_event cfg ss h with
+  | None => next_state cfg ss h = ss
+  | Some None => next_state cfg ss h = ResetS true
+  | Some (Some b) => ss = ResetS b /\ next_state cfg ss h = ResetS (negb b)
+  end.
+Proof.
+  unfold conf_event, next_state. rewrite process_header_eq.
+  destruct (link_filter cfg h) as [[s bc]|] eqn:Ef.
+  2:{ destruct (c_func (h_control h)); reflexivity. }
+  unfold dispatch, ack_unless_broadcast.
+  destruct (c_func (h_control h)); destruct (c_fcv (h_control h)); cbn [negb fst snd]; try reflexivity.
+  destruct ss as [|e]; [reflexivity|].
+  destruct (bool_eqb (c_fcb (h_control h)) e) eqn:Eb; cbn [fst snd]; [|reflexivity].
+  apply (proj1 (bool_eqb_true _ _)) in Eb. subst e. split; reflexivity.
+Qed.
+
+Theorem conf_trace_wf cfg : forall hs ss, wf_from ss (conf_trace cfg ss hs).
+Proof.
+  induction hs as [|h hs IH]; intro ss; [exact I|].
+  cbn [conf_trace]. pose proof (conf_event_step cfg ss h) as Hstep.
+  destruct (conf_event cfg ss h) as [[b|]|]; cbn [app wf_from].
+  - destruct Hstep as [-> Hn]. split; [reflexivity|]. rewrite Hn. apply IH.
+  - rewrite Hstep. apply IH.
+  - rewrite Hstep. apply IH.
+Qed.
+
+(* two delivered confirmed frames with no reset in between carry different FCBs *)
+Theorem wf_from_adjacent : forall l1 ss a b l2,
+  wf_from ss (l1 ++ Some a :: Some b :: l2) -> b = negb a.
+Proof.
+  induction l1 as [|x l1 IH]; intros ss a b l2 H.
+  - cbn [app wf_from] in H. destruct ss as [|e]; [contradiction|].
+    destruct H as (-> & -> & _). reflexivity.
+  - cbn [app wf_from] in H. destruct x as [y|].
+    + destruct ss as [|e]; [contradiction|]. destruct H as [_ H]. exact (IH _ _ _ _ H).
+    + exact (IH _ _ _ _ H).
+Qed.
+
+(* the first delivered confirmed frame after a reset has FCB = 1 *)
+Theorem wf_from_after_reset : forall l1 ss b l2,
+  wf_from ss (l1 ++ None :: Some b :: l2) -> b = true.
+Proof.
+  induction l1 as [|x l1 IH]; intros ss b l2 H.
+  - cbn [app wf_from] in H. destruct H as [-> _]. reflexivity.
+  - cbn [app wf_from] in H. destruct x as [y|].
+    + destruct ss as [|e]; [contradiction|]. destruct H as [_ H]. exact (IH _ _ _ H).
+    + exact (IH _ _ _ H).
+Qed.
+
+Corollary confirmed_data_once_per_fcb cfg ss hs l1 a b l2 :
+  conf_trace cfg ss hs = l1 ++ Some a :: Some b :: l2 -> b = negb a.
+Proof. intro E. apply (wf_from_adjacent l1 ss a b l2). rewrite <- E. apply conf_trace_wf. Qed.
+
+Corollary confirmed_data_after_reset_fcb_1 cfg ss hs l1 b l2 :
+  conf_trace cfg ss hs = l1 ++ None :: Some b :: l2 -> b = true.
+Proof. intro E. apply (wf_from_after_reset l1 ss b l2). rewrite <- E. apply conf_trace_wf. Qed.
+
+(* starting from power-up (NotReset) nothing confirmed is delivered before the first reset *)
+Corollary confirmed_data_needs_reset cfg hs b l :
+  conf_trace cfg NotReset hs <> Some b :: l.
+Proof. intro E. pose proof (conf_trace_wf cfg hs NotReset) as H. rewrite E in H. exact H. Qed.
+
+(* the trace of events and what the layer hands up: every Some in conf_trace is one LInfo ... FData
+   observation of layer_obs and (when no unconfirmed user data is in the run) vice versa *)
+Definition is_data_info (o : lobs) : bool :=
+  match o with LInfo i _ => match fi_type i with FData => true | _ => false end | _ => false end.
+
+Definition is_delivery (ev : option bool) : bool := match ev with Some _ => true | None => false end.
+
+Lemma step_data_count cfg ss h p : c_func (h_control h) <> PriUnconfirmedUserData ->
+  length (filter is_data_info
+    ((match snd (process_header cfg ss h) with Some r => [LTx (reply_bytes cfg r)] | None => [] end)
+     ++ (match snd (fst (process_header cfg ss h)) with Some i => [LInfo i p] | None => [] end))) =
+  length (filter is_delivery (match conf_event cfg ss h with Some ev => [ev] | None => [] end)).
+Proof.
+  intro Hf. unfold conf_event. rewrite process_header_eq.
+  destruct (link_filter cfg h) as [[s bc]|] eqn:Ef.
+  2:{ destruct (c_func (h_control h)); reflexivity. }
+  unfold dispatch, ack_unless_broadcast.
+  destruct (c_func (h_control h)); try congruence;
+    destruct (c_fcv (h_control h)); cbn [negb fst snd]; try reflexivity.
+  destruct ss as [|e]; [reflexivity|].
+  destruct (bool_eqb (c_fcb (h_control h)) e); destruct bc; reflexivity.
+Qed.
+
+Lemma filter_app_length {A} (f : A -> bool) (a b : list A) :
+  length (filter f (a ++ b)) = (length (filter f a) + length (filter f b))%nat.
+Proof. rewrite filter_app, app_length. reflexivity. Qed.
+
+Theorem delivered_confirmed_are_infos cfg : forall frames ss,
+  Forall (fun f => c_func (h_control (fst f)) <> PriUnconfirmedUserData) frames ->
+  length (filter is_data_info (layer_obs cfg ss (map oframe frames))) =
+  length (filter is_delivery (conf_trace cfg ss (map fst frames))).
+Proof.
+  induction frames as [|[h p] frames IH]; intros ss Hall; [reflexivity|].
+  inversion Hall as [|? ? Hh Hrest]; subst. cbn [fst] in Hh.
+  cbn [map fst conf_trace]. change (oframe (h, p)) with (OFrame h p).
+  rewrite layer_obs_frame_cons, app_assoc.
+  rewrite (filter_app_length is_data_info (_ ++ _) (layer_obs _ _ _)).
+  rewrite (filter_app_length is_delivery _ (conf_trace _ _ _)).
+  rewrite (step_data_count cfg ss h p Hh). f_equal.
+  apply IH. exact Hrest.
+Qed.
+
+(* ---------- 5. which of the 256 control bytes an endpoint can act on ----------------------------- *)
+
+Definition acts (x : sec_state * option frame_info * option reply) : bool :=
+  match x with (_, None, None) => false | _ => true end.
+
+Lemma acts_dispatch_source ss c s s' bc : acts (dispatch ss c s bc) = acts (dispatch ss c s' bc).
+Proof.
+  unfold dispatch, ack_unless_broadcast.
+  destruct (c_func c); destruct (c_fcv c); cbn [negb]; try reflexivity.
+  destruct ss as [|e]; [reflexivity|]. destruct (bool_eqb (c_fcb c) e); destruct bc; reflexivity.
+Qed.
+
+(* whether a frame that is addressed to the endpoint is acted upon depends only on the endpoint
+   type, the secondary state, the control byte and the broadcast/unicast distinction *)
+Lemma acts_unicast_indep cfg ss h s :
+  h_src h = AEndpoint s ->
+  (h_dest h = AEndpoint (l_addr cfg) \/ (h_dest h = ASelf /\ l_self cfg = true)) ->
+  acts (process_header cfg ss h) =
+  acts (process_header {| l_type := l_type cfg; l_self := false; l_addr := 1 |} ss
+          {| h_control := h_control h; h_dest := AEndpoint 1; h_src := AEndpoint 2 |}).
+Proof.
+  intros Hs Hd. rewrite !process_header_eq. unfold link_filter at 2. cbn [h_control h_src h_dest l_type dest_class l_addr].
+  change (1 =? 1) with true. cbv iota.
+  destruct (bool_eqb (c_master (h_control h)) (dir_bit (l_type cfg))) eqn:Edir.
+  - unfold link_filter. rewrite Edir. reflexivity.
+  - assert (Ef : link_filter cfg h = Some (s, None)).
+    { apply link_filter_spec. split; [apply bool_eqb_false; exact Edir|]. split; [exact Hs|]. left. auto. }
+    rewrite Ef. apply acts_dispatch_source.
+Qed.
+
+Lemma acts_broadcast_indep cfg ss h s m :
+  h_src h = AEndpoint s -> h_dest h = ABroadcast m ->
+  acts (process_header cfg ss h) =
+  acts (process_header {| l_type := l_type cfg; l_self := false; l_addr := 1 |} ss
+          {| h_control := h_control h; h_dest := ABroadcast BOptional; h_src := AEndpoint 2 |}).
+Proof.
+  intros Hs Hd. rewrite !process_header_eq. unfold link_filter, dest_class.
+  cbn [h_control h_src h_dest l_type]. rewrite Hs, Hd.
+  destruct (bool_eqb (c_master (h_control h)) (dir_bit (l_type cfg))); [reflexivity|].
+  destruct (l_type cfg); [reflexivity|].
+  destruct (negb (is_user_data (c_func (h_control h)))); [reflexivity|].
+  unfold dispatch, ack_unless_broadcast.
+  destruct (c_func (h_control h)); destruct (c_fcv (h_control h)); cbn [negb]; try reflexivity.
+  destruct ss as [|e]; [reflexivity|]. destruct (bool_eqb (c_fcb (h_control h)) e); reflexivity.
+Qed.
+
+Definition mem (b : N) (l : list N) : bool := existsb (N.eqb b) l.
+
+Definition cfg1 (t : endpoint_type) : lcfg := {| l_type := t; l_self := false; l_addr := 1 |}.
+
+(* unicast, outstation: SEC link status (any FCB/DFC bits), reset link states (FCB ignored),
+   unconfirmed data, request link status; confirmed data (FCV set) only after a reset *)
+Lemma outstation_unicast_controls_check :
+  forallb (fun b =>
+    Bool.eqb (acts (process_header (cfg1 Outstation) NotReset (mk_header b 1 2)))
+             (mem b [139; 155; 171; 187; 192; 196; 201; 224; 228; 233]) &&
+    Bool.eqb (acts (process_header (cfg1 Outstation) (ResetS true) (mk_header b 1 2)))
+             (mem b [139; 155; 171; 187; 192; 196; 201; 211; 224; 228; 233; 243]) &&
+    Bool.eqb (acts (process_header (cfg1 Outstation) (ResetS false) (mk_header b 1 2)))
+             (mem b [139; 155; 171; 187; 192; 196; 201; 211; 224; 228; 233; 243]))
+    (nrange 256) = true.
+Proof. vm_compute. reflexivity. Qed.
+
+Lemma master_unicast_controls_check :
+  forallb (fun b =>
+    Bool.eqb (acts (process_header (cfg1 Master) NotReset (mk_header b 1 2)))
+             (mem b [11; 27; 43; 59; 64; 68; 73; 96; 100; 105]) &&
+    Bool.eqb (acts (process_header (cfg1 Master) (ResetS true) (mk_header b 1 2)))
+             (mem b [11; 27; 43; 59; 64; 68; 73; 83; 96; 100; 105; 115]) &&
+    Bool.eqb (acts (process_header (cfg1 Master) (ResetS false) (mk_header b 1 2)))
+             (mem b [11; 27; 43; 59; 64; 68; 73; 83; 96; 100; 105; 115]))
+    (nrange 256) = true.
+Proof. vm_compute. reflexivity. Qed.
+
+(* broadcast (65535; the other two modes behave alike, acts_broadcast_indep), outstation: user data only *)
+Lemma outstation_broadcast_controls_check :
+  forallb (fun b =>
+    Bool.eqb (acts (process_header (cfg1 Outstation) NotReset (mk_header b 65535 2)))
+             (mem b [196; 228]) &&
+    Bool.eqb (acts (process_header (cfg1 Outstation) (ResetS true) (mk_header b 65535 2)))
+             (mem b [196; 228; 243]) &&
+    Bool.eqb (acts (process_header (cfg1 Outstation) (ResetS false) (mk_header b 65535 2)))
+             (mem b [196; 211; 228]))
+    (nrange 256) = true.
+Proof. vm_compute. reflexivity. Qed.
+
+(* the table, as a function *)
+Definition acting_controls (t : endpoint_type) (broadcast : bool) (ss : sec_state) : list N :=
+  match t, broadcast, ss with
+  | Outstation, false, NotReset => [139; 155; 171; 187; 192; 196; 201; 224; 228; 233]
+  | Outstation, false, ResetS _ => [139; 155; 171; 187; 192; 196; 201; 211; 224; 228; 233; 243]
+  | Master, false, NotReset => [11; 27; 43; 59; 64; 68; 73; 96; 100; 105]
+  | Master, false, ResetS _ => [11; 27; 43; 59; 64; 68; 73; 83; 96; 100; 105; 115]
+  | Outstation, true, NotReset => [196; 228]
+  | Outstation, true, ResetS true => [196; 228; 243]
+  | Outstation, true, ResetS false => [196; 211; 228]
+  | Master, true, _ => []
+  end.
+
+Theorem acting_controls_unicast cfg ss h s b :
+  b < 256 -> h_control h = control_from b -> h_src h = AEndpoint s ->
+  (h_dest h = AEndpoint (l_addr cfg) \/ (h_dest h = ASelf /\ l_self cfg = true)) ->
+  acts (process_header cfg ss h) = mem b (acting_controls (l_type cfg) false ss).
+Proof.
+  intros Hb Hc Hs Hd. rewrite (acts_unicast_indep cfg ss h s Hs Hd), Hc.
+  change {| h_control := control_from b; h_dest := AEndpoint 1; h_src := AEndpoint 2 |}
+    with (mk_header b 1 2).
+  destruct (l_type cfg).
+  - pose proof (forallb_nrange _ 256 master_unicast_controls_check b Hb) as H. cbv beta in H.
+    apply andb_true_iff in H. destruct H as [H H3]. apply andb_true_iff in H. destruct H as [H1 H2].
+    apply Bool.eqb_prop in H1, H2, H3. destruct ss as [|[|]]; assumption.
+  - pose proof (forallb_nrange _ 256 outstation_unicast_controls_check b Hb) as H. cbv beta in H.
+    apply andb_true_iff in H. destruct H as [H H3]. apply andb_true_iff in H. destruct H as [H1 H2].
+    apply Bool.eqb_prop in H1, H2, H3. destruct ss as [|[|]]; assumption.
+Qed.
+
+Theorem acting_controls_broadcast cfg ss h s m b :
+  b < 256 -> h_control h = control_from b -> h_src h = AEndpoint s -> h_dest h = ABroadcast m ->
+  acts (process_header cfg ss h) = mem b (acting_controls (l_type cfg) true ss).
+Proof.
+  intros Hb Hc Hs Hd. destruct (l_type cfg) eqn:Et.
+  - rewrite (master_ignores_broadcast cfg ss h m Et Hd). reflexivity.
+  - rewrite (acts_broadcast_indep cfg ss h s m Hs Hd), Hc, Et.
+    change {| h_control := control_from b; h_dest := ABroadcast BOptional; h_src := AEndpoint 2 |}
+      with (mk_header b 65535 2).
+    pose proof (forallb_nrange _ 256 outstation_broadcast_controls_check b Hb) as H. cbv beta in H.
+    apply andb_true_iff in H. destruct H as [H H3]. apply andb_true_iff in H. destruct H as [H1 H2].
+    apply Bool.eqb_prop in H1, H2, H3. destruct ss as [|[|]]; assumption.
+Qed.
+
+(* ---------- extras -------------------------------------------------------------------------------- *)
+
+(* without a reset-link-states frame the secondary station never leaves NotReset *)
+Theorem not_reset_run cfg : forall hs,
+  Forall (fun h => c_func (h_control h) <> PriResetLinkStates) hs -> run_sec cfg NotReset hs = NotReset.
+Proof.
+  induction hs as [|h hs IH]; intro Hall; [reflexivity|].
+  inversion Hall as [|? ? Hh Hrest]; subst. cbn [run_sec].
+  assert (E : next_state cfg NotReset h = NotReset).
+  { unfold next_state. destruct (process_header cfg NotReset h) as [[ss' info] rp] eqn:Ep. cbn [fst].
+    destruct ss' as [|e]; [reflexivity|]. exfalso.
+    assert (Hne : ResetS e <> NotReset) by discriminate.
+    destruct (not_reset_persists cfg h _ _ _ Ep Hne) as (Hf & _). exact (Hh Hf). }
+  rewrite E. apply IH. exact Hrest.
+Qed.
+
+(* broadcast confirmed user data consumes the expected FCB although nothing is acknowledged *)
+Theorem broadcast_confirmed_toggles_without_ack cfg h s m e :
+  l_type cfg = Outstation -> c_master (h_control h) = true -> h_src h = AEndpoint s ->
+  h_dest h = ABroadcast m -> c_func (h_control h) = PriConfirmedUserData ->
+  c_fcv (h_control h) = true -> c_fcb (h_control h) = e ->
+  process_header cfg (ResetS e) h = (ResetS (negb e), Some (mk_info s (Some m) FData), None).
+Proof.
+  intros Ht Hdir Hs Hd Hf Hv Hb.
+  assert (Ha : accepted cfg h s (Some m)).
+  { apply link_filter_spec. rewrite Ht. split; [exact Hdir|]. split; [exact Hs|]. right. exists m.
+    rewrite Hf. auto. }
+  exact (confirmed_matching_fcb cfg e h s (Some m) Ha Hf Hv Hb).
+Qed.
+
+(* control_from only looks at the low eight bits *)
+Lemma land_land_255 x m : N.land 255 m = m -> N.land (x mod 256) m = N.land x m.
+Proof.
+  intro Hm. change 256 with (2 ^ 8). rewrite <- N.land_ones. change (N.ones 8) with 255.
+  rewrite <- N.land_assoc, Hm. reflexivity.
+Qed.
+
+Lemma control_from_mod256 x : control_from (x mod 256) = control_from x.
+Proof.
+  unfold control_from, bit_set. rewrite !land_land_255 by reflexivity. reflexivity.
+Qed.
+
+Lemma control_to_bound c : control_from (control_to c) = c -> control_to c < 256.
+Proof.
+  intro H. rewrite <- control_from_mod256 in H.
+  assert (Hm : control_to c mod 256 < 256) by (apply N.mod_upper_bound; discriminate).
+  pose proof (control_round_trip _ Hm) as Hr. rewrite H in Hr. rewrite Hr. exact Hm.
+Qed.
+
+(* the reply control byte of a function code the library does not know (the layer never sends
+   one; this is only to state reply_bytes_parse for every function with a code below 16) *)
+Lemma unknown_reply_control_check :
+  forallb (fun b => forallb (fun m =>
+    (N.land (control_to {| c_func := FUnknown b; c_master := m; c_fcb := false; c_fcv := false |}) c_mask_func_or_prm =? b) &&
+    Bool.eqb (bit_set (control_to {| c_func := FUnknown b; c_master := m; c_fcb := false; c_fcv := false |}) c_mask_dir) m &&
+    negb (bit_set (control_to {| c_func := FUnknown b; c_master := m; c_fcb := false; c_fcv := false |}) c_mask_fcb) &&
+    negb (bit_set (control_to {| c_func := FUnknown b; c_master := m; c_fcb := false; c_fcv := false |}) c_mask_fcv))
+    [true; false]) (nrange 16) = true.
+Proof. vm_compute. reflexivity. Qed.
+
+(* the functions a reply could carry: code below 16 and decoded back to itself *)
+Definition reply_func_ok (f : lfunc) : Prop := lfunc_to f < 16 /\ lfunc_from (lfunc_to f) = f.
+
+Lemma reply_control_from_to f m : reply_func_ok f ->
+  control_from (control_to {| c_func := f; c_master := m; c_fcb := false; c_fcv := false |})
+  = {| c_func := f; c_master := m; c_fcb := false; c_fcv := false |}.
+Proof.
+  intros [Hlt Hrt]. destruct f as [| | | | | | | | |b]; try (apply control_from_to; exact I).
+  cbn [lfunc_to] in Hlt, Hrt.
+  pose proof (forallb_nrange _ 16 unknown_reply_control_check b Hlt) as H. cbv beta in H.
+  rewrite forallb_forall in H.
+  assert (Hin : In m [true; false]) by (destruct m; cbn; auto).
+  specialize (H m Hin).
+  apply andb_true_iff in H. destruct H as [H H4]. apply andb_true_iff in H. destruct H as [H H3].
+  apply andb_true_iff in H. destruct H as [H1 H2].
+  apply N.eqb_eq in H1. apply Bool.eqb_prop in H2. apply negb_true_iff in H3, H4.
+  unfold control_from. rewrite H1, H2, H3, H4, Hrt. reflexivity.
+Qed.
+
+Theorem reply_bytes_parse_any cfg s f rest :
+  s < 65520 -> l_addr cfg < 65520 -> reply_func_ok f ->
+  parse_impl FindSync1 (reply_bytes cfg {| rp_addr := s; rp_func := f |} ++ rest) =
+  (FindSync1, rest,
+   PFrame {| h_control := {| c_func := f; c_master := dir_bit (l_type cfg); c_fcb := false; c_fcv := false |};
+             h_dest := AEndpoint s; h_src := AEndpoint (l_addr cfg) |} []).
+Proof.
+  intros Hs Ha Hf. unfold reply_bytes. cbn [rp_addr rp_func].
+  pose proof (reply_control_from_to f (dir_bit (l_type cfg)) Hf) as Hc.
+  set (c := {| c_func := f; c_master := dir_bit (l_type cfg); c_fcb := false; c_fcv := false |}) in *.
+  assert (Hh : {| h_control := c; h_dest := AEndpoint s; h_src := AEndpoint (l_addr cfg) |}
+               = mk_header (control_to c) s (l_addr cfg)).
+  { unfold mk_header. rewrite Hc. rewrite !address_from_endpoint by assumption. reflexivity. }
+  rewrite Hh, format_header_fixed_size_eq.
+  apply frame_round_trip.
+  - unfold header_ok. split; [apply control_to_bound; exact Hc|]. lia.
+  - constructor.
+  - cbn [length]. lia.
+Qed.
+
+(* ---------- the same with the filter spelled out (for Properties/C07.v) --------------------------- *)
+
+Lemma accepted_unicast cfg h s :
+  (h_dest h = AEndpoint (l_addr cfg) \/ (h_dest h = ASelf /\ l_self cfg = true)) ->
+  c_master (h_control h) = negb (dir_bit (l_type cfg)) -> h_src h = AEndpoint s ->
+  accepted cfg h s None.
+Proof. intros Hd Hdir Hs. apply link_filter_spec. split; [exact Hdir|]. split; [exact Hs|]. left. auto. Qed.
+
+Lemma accepted_broadcast cfg h s m :
+  l_type cfg = Outstation -> h_dest h = ABroadcast m -> c_master (h_control h) = true ->
+  h_src h = AEndpoint s -> is_user_data (c_func (h_control h)) = true ->
+  accepted cfg h s (Some m).
+Proof.
+  intros Ht Hd Hdir Hs Hu. apply link_filter_spec. rewrite Ht. split; [exact Hdir|]. split; [exact Hs|].
+  right. exists m. auto.
+Qed.
+
+Theorem reset_link_states_unicast cfg ss h s :
+  (h_dest h = AEndpoint (l_addr cfg) \/ (h_dest h = ASelf /\ l_self cfg = true)) ->
+  c_master (h_control h) = negb (dir_bit (l_type cfg)) -> h_src h = AEndpoint s ->
+  c_func (h_control h) = PriResetLinkStates -> c_fcv (h_control h) = false ->
+  process_header cfg ss h = (ResetS true, None, Some {| rp_addr := s; rp_func := SecAck |}).
+Proof.
+  intros Hd Hdir Hs Hf Hv.
+  exact (proj2 (reset_link_states_accepted cfg ss h s None (accepted_unicast cfg h s Hd Hdir Hs) Hf Hv)).
+Qed.
+
+Theorem confirmed_unicast cfg e h s :
+  (h_dest h = AEndpoint (l_addr cfg) \/ (h_dest h = ASelf /\ l_self cfg = true)) ->
+  c_master (h_control h) = negb (dir_bit (l_type cfg)) -> h_src h = AEndpoint s ->
+  c_func (h_control h) = PriConfirmedUserData -> c_fcv (h_control h) = true ->
+  process_header cfg (ResetS e) h =
+    if bool_eqb (c_fcb (h_control h)) e
+    then (ResetS (negb e), Some (mk_info s None FData), Some {| rp_addr := s; rp_func := SecAck |})
+    else (ResetS e, None, Some {| rp_addr := s; rp_func := SecAck |}).
+Proof.
+  intros Hd Hdir Hs Hf Hv. pose proof (accepted_unicast cfg h s Hd Hdir Hs) as Ha.
+  destruct (bool_eqb (c_fcb (h_control h)) e) eqn:Eb.
+  - apply (proj1 (bool_eqb_true _ _)) in Eb. exact (confirmed_matching_fcb cfg e h s None Ha Hf Hv Eb).
+  - apply (proj1 (bool_eqb_false _ _)) in Eb. exact (confirmed_wrong_fcb cfg e h s None Ha Hf Hv Eb).
+Qed.
+
+Theorem confirmed_broadcast cfg e h s m :
+  l_type cfg = Outstation -> h_dest h = ABroadcast m -> c_master (h_control h) = true ->
+  h_src h = AEndpoint s ->
+  c_func (h_control h) = PriConfirmedUserData -> c_fcv (h_control h) = true ->
+  process_header cfg (ResetS e) h =
+    if bool_eqb (c_fcb (h_control h)) e
+    then (ResetS (negb e), Some (mk_info s (Some m) FData), None)
+    else (ResetS e, None, None).
+Proof.
+  intros Ht Hd Hdir Hs Hf Hv.
+  assert (Ha : accepted cfg h s (Some m)) by (apply accepted_broadcast; try assumption; rewrite Hf; reflexivity).
+  destruct (bool_eqb (c_fcb (h_control h)) e) eqn:Eb.
+  - apply (proj1 (bool_eqb_true _ _)) in Eb. exact (confirmed_matching_fcb cfg e h s (Some m) Ha Hf Hv Eb).
+  - apply (proj1 (bool_eqb_false _ _)) in Eb. exact (confirmed_wrong_fcb cfg e h s (Some m) Ha Hf Hv Eb).
+Qed.
